@@ -64,6 +64,16 @@ class GreedyRealizes(NativeCase):
             t = ["SWAP%d" % rnd.randint(11, 16)] + [rnd.choice(bin_ops) for _ in range(rnd.randint(8, 12))] + ["SWAP%d" % rnd.randint(8, 14)]
             t += [rnd.choice(bin_ops) for _ in range(rnd.randint(3, 6))] + rnd.choice((["SWAP2", "POP", "SWAP1"], ["SWAP1", "POP"], ["POP"], ["SWAP3", "POP"]))
             blocks.append(" ".join(t))
+        # several stores of one kind of which some are ordered (after a load of the same literal key) and some are free (seed C04-5:
+        # a store that takes part in no ordering constraint is lost when another one does)
+        for ld, st in (("SLOAD", "SSTORE"), ("MLOAD", "MSTORE")):
+            k1, k2, k3 = ("1", "2", "3") if st == "SSTORE" else ("0", "40", "80")
+            blocks += ["PUSH %s %s DUP2 PUSH %s %s DUP2 PUSH %s %s" % (k1, ld, k1, st, k2, st),
+                       "PUSH %s %s DUP2 PUSH %s %s DUP2 PUSH %s %s" % (k1, ld, k2, st, k1, st),
+                       "DUP1 PUSH %s %s PUSH %s %s DUP2 PUSH %s %s ADD" % (k2, st, k1, ld, k1, st),
+                       "PUSH %s %s DUP2 PUSH %s %s DUP2 PUSH %s %s DUP2 PUSH %s %s" % (k1, ld, k1, st, k2, st, k3, st),
+                       "PUSH %s %s PUSH %s %s DUP3 PUSH %s %s DUP3 PUSH %s %s DUP3 PUSH %s %s ADD" % (k1, ld, k2, ld, k2, st, k3, st, k1, st),
+                       "DUP1 PUSH %s %s DUP1 PUSH %s %s PUSH %s %s DUP2 PUSH %s %s" % (k3, st, k2, st, k1, ld, k1, st)]
         n = ok_runs = errs = 0
         for b in blocks:
             toks = corpus.tokens(b)
